@@ -28,6 +28,12 @@ pub enum XS {
     LetTup(XE),
     Show(XE),
     Clo(XE, XE), // let f = |x| body; showI(f(arg))
+    /// `while <runs once> { stmts; showI(tail) };` - the body is a block of its own
+    While(Box<XB>),
+    /// `let f = |x| { stmts; tail }; showI(f(0))` - a closure whose body is a block with statements
+    CloBlock(Box<XB>),
+    /// `match 0 { k => { stmts; showI(tail) } };` - an arm whose body is a block with statements
+    ArmBlock(Box<XB>),
 }
 
 #[derive(Debug, Clone, PartialEq)]
@@ -125,6 +131,26 @@ fn bodies(tier: Tier) -> Vec<XB> {
     for p in prefixes {
         for t in &tails {
             v.push(XB { stmts: p.clone(), tail: t.clone() });
+        }
+    }
+    // constructs that own a block (loop body, closure body, arm body) holding every depth-0 block, with
+    // and without an outer binding before them, followed by a use: what the block binds ends with it
+    for inner in blocks0() {
+        for owner in 0..3 {
+            let ob = Box::new(inner.clone());
+            let os = match owner {
+                0 => XS::While(ob),
+                1 => XS::CloBlock(ob),
+                _ => XS::ArmBlock(ob),
+            };
+            for pre in [None, Some(XS::Let(XE::Lit))] {
+                for tail in exprs0() {
+                    let mut stmts: Vec<XS> = pre.iter().cloned().collect();
+                    stmts.push(os.clone());
+                    stmts.push(XS::Show(XE::Use));
+                    v.push(XB { stmts, tail });
+                }
+            }
         }
     }
     // depth-1 expressions in statement position followed by a use (does a binding leak out?)
@@ -234,6 +260,30 @@ impl Elab {
                     stmts.push(st(call("showI", vec![E::Call(Box::new(v(f)), vec![av])])));
                     self.clo += 1;
                 }
+                XS::While(inner) => {
+                    let w = self.other("w");
+                    stmts.push(let_(w, bi("ref", vec![int(0)])));
+                    let body = self.block(inner, &sc);
+                    let E::Block(mut bs, tail) = body else { unreachable!() };
+                    bs.push(st(call("showI", vec![*tail.unwrap()])));
+                    bs.push(st(bi("ref_set", vec![v(w), int(1)])));
+                    stmts.push(st(E::While(Box::new(bin(BinOp::Lt, bi("ref_get", vec![v(w)]), int(1))), Box::new(E::Block(bs, None)))));
+                }
+                XS::CloBlock(inner) => {
+                    let f = self.other("f");
+                    let bx = self.binder(&sc);
+                    let body = self.block(inner, &Some(bx));
+                    stmts.push(let_(f, E::Closure(vec![(bx, Some(Ty::i32()))], Box::new(body))));
+                    stmts.push(st(call("showI", vec![E::Call(Box::new(v(f)), vec![int(0)])])));
+                    self.clo += 1;
+                }
+                XS::ArmBlock(inner) => {
+                    let k = self.other("k");
+                    let body = self.block(inner, &sc);
+                    let E::Block(mut bs, tail) = body else { unreachable!() };
+                    bs.push(st(call("showI", vec![*tail.unwrap()])));
+                    stmts.push(st(E::Match(Box::new(int(0)), vec![(Pat::Var(k), E::Block(bs, None))])));
+                }
             }
         }
         let t = self.expr(&b.tail, &sc);
@@ -330,7 +380,7 @@ impl Family for Scoping {
         &["C05", "C01", "C02", "C04"]
     }
     fn rule(&self) -> &'static str {
-        "binder-shape lattice: every function body made of <= 1 (quick) / <= 2 (thorough) depth-0 statements {let x, let (x,_), show, closure |x|} followed by a depth-1 tail {x, literal, if with one-statement blocks, if whose then-block has two statements (every pair), match binding x, match x => …}, with and without a parameter named x, every binder spelled `x`; every body whose binders are parameters and closure parameters only and whose uses are all bound also in a package that declares an enum with a variant spelled `x` (a pattern of that spelling is a constructor pattern), the enum in the same file, and in a second file of the package with the variant itself used bare in a function that comes first; every body whose uses are all bound also in a package that declares a struct spelled `x`, in the same file and in a second file; non-trivial = programs with a use whose innermost binder is shadowing another binder, or with an unbound use; distinct = distinct source text"
+        "binder-shape lattice: every function body made of <= 1 (quick) / <= 2 (thorough) depth-0 statements {let x, let (x,_), show, closure |x|} followed by a depth-1 tail (plus: a loop body / closure body / arm body that is a block holding every depth-0 block, with and without an outer binding before it, followed by a use) {x, literal, if with one-statement blocks, if whose then-block has two statements (every pair), match binding x, match x => …}, with and without a parameter named x, every binder spelled `x`; every body whose binders are parameters and closure parameters only and whose uses are all bound also in a package that declares an enum with a variant spelled `x` (a pattern of that spelling is a constructor pattern), the enum in the same file, and in a second file of the package with the variant itself used bare in a function that comes first; every body whose uses are all bound also in a package that declares a struct spelled `x`, in the same file and in a second file; non-trivial = programs with a use whose innermost binder is shadowing another binder, or with an unbound use; distinct = distinct source text"
     }
     fn cases(&self, tier: Tier) -> Box<dyn Iterator<Item = Value> + '_> {
         let n = bodies(tier).len();
@@ -544,6 +594,7 @@ fn has_pattern_binder(b: &XB) -> bool {
             XS::Let(_) | XS::LetTup(_) => true,
             XS::Show(x) => e(x),
             XS::Clo(a, c) => e(a) || e(c),
+            XS::While(_) | XS::CloBlock(_) | XS::ArmBlock(_) => true,
         }) || e(&b.tail)
     }
     bl(b)
@@ -562,6 +613,7 @@ fn has_two_statement_block(b: &XB) -> bool {
         b.stmts.iter().any(|s| match s {
             XS::Let(x) | XS::LetTup(x) | XS::Show(x) => e(x),
             XS::Clo(a, c) => e(a) || e(c),
+            XS::While(i) | XS::CloBlock(i) | XS::ArmBlock(i) => bl(i),
         }) || e(&b.tail)
     }
     bl(b)
@@ -621,6 +673,18 @@ fn shape_of(b: &XB) -> String {
                     out.push("closure");
                     e(a, out);
                     e(c, out);
+                }
+                XS::While(i) => {
+                    out.push("while-block");
+                    bl(i, out);
+                }
+                XS::CloBlock(i) => {
+                    out.push("closure-block");
+                    bl(i, out);
+                }
+                XS::ArmBlock(i) => {
+                    out.push("arm-block");
+                    bl(i, out);
                 }
             }
         }
